@@ -180,7 +180,7 @@ func (s *appStream) boot(r *tr.Rng) {
 	}
 	s.btc.keyOracles(bk)
 	s.btc.keyOracles(s.btc.unreg)
-	s.lck = &lockingStream{worldStream: s.worldStream, profile: "mixed", mapOrderBias: s.profile == "app-det"}
+	s.lck = &lockingStream{worldStream: s.worldStream, profile: "mixed", mapOrderBias: s.profile == "app-det", exitBias: strings.HasPrefix(s.profile, "app-export")}
 	s.lck.k = 1
 	lp, _ := sim.App.LockingKeeper.Params.Get(s.w.Ctx)
 	s.lck.params.unlock, s.lck.params.exit, s.lck.params.jail = int64(lp.UnlockDuration), int64(lp.ExitingDuration), int64(lp.DowntimeJailDuration)
@@ -569,6 +569,9 @@ func (s *appStream) genBlock(r *tr.Rng) {
 			}
 		}
 		script.Locking = world.LockReqOf(lo)
+		if os.Getenv("VERIF_DEBUG") != "" {
+			fmt.Fprintf(os.Stderr, "# lockreq cls %s\n", lo.Cls)
+		}
 		// the gas request is part of the scripted list (none / two are fault classes)
 		if len(script.Locking.Gas) == 0 {
 			script.NoGas = true
